@@ -19,10 +19,12 @@ Definition pins : list string := ["usim/_primitives/context.py:CancelScope.__ini
   "usim/_primitives/context.py:Scope._collect_exceptions";
   "usim/_primitives/context.py:Scope._propagate_exceptions";
   "usim/_primitives/context.py:Scope._is_suppressed";
+  "usim/_primitives/context.py:Scope.__repr__";
   "usim/_primitives/context.py:InterruptScope.__init__";
   "usim/_primitives/context.py:InterruptScope.__aenter__";
   "usim/_primitives/context.py:InterruptScope._disable_interrupts";
   "usim/_primitives/context.py:InterruptScope._is_suppressed";
+  "usim/_primitives/context.py:InterruptScope.__repr__";
   "usim/_primitives/context.py:until";
   "usim/_primitives/context.py:<module>";
   "usim/_primitives/context.py:CancelScope.<attrs>";
@@ -34,6 +36,7 @@ Definition pins : list string := ["usim/_primitives/context.py:CancelScope.__ini
   "usim/_primitives/concurrent_exception.py:Concurrent.__init__";
   "usim/_primitives/concurrent_exception.py:<module>";
   "usim/_primitives/concurrent_exception.py:Concurrent.<attrs>";
+  "usim/_primitives/concurrent_exception.py:Concurrent.__repr__";
   "usim/_primitives/concurrent_exception.py:MetaConcurrent.<attrs>";
   "usim/_primitives/concurrent_exception.py:MetaConcurrent.__getitem__";
   "usim/_primitives/concurrent_exception.py:MetaConcurrent.__instancecheck__";
@@ -57,6 +60,7 @@ Definition pins : list string := ["usim/_primitives/context.py:CancelScope.__ini
   "usim/_primitives/task.py:Task.__close__";
   "usim/_primitives/task.py:Task.__del__";
   "usim/_primitives/task.py:Task.__exception__";
+  "usim/_primitives/task.py:Task.__repr__";
   "usim/_primitives/task.py:Task.cancel";
   "usim/_primitives/task.py:Task.done";
   "usim/_primitives/task.py:Task.status";
